@@ -3,7 +3,7 @@ import MypyVerif.Model.LangTc
 Line-protocol driver for the C01 model (model files only).  One program per line, as emitted by
 `harness/c01/lang.py:to_lean`:
 
-  prog <nc> {class <base|-1> <k> mro… <k> {f T}… <k> T… <k> {f E}… <k> {m FN}…} <nf> FN…
+  prog <nc> {class <k> bases… <k> mro… <k> {f T}… <k> T… <k> {f E}… <k> {m FN}…} <nf> FN…
   calls <fuel> <k> {<f> <k> E…}…
 
   T  ::= T<k> atom…          atom ::= i | s | b | n | o | c<id>
@@ -106,14 +106,14 @@ def pPair {α : Type} (p : Parser α) : Parser (Nat × α) := fun ts => do
   pure ((k, a), ts)
 
 def pClass : Parser ClassDef
-  | "class" :: b :: r => do
-    let base := if b == "-1" then none else b.toNat?
+  | "class" :: r => do
+    let (bases, r) ← pCounted pNat r
     let (mro, r) ← pCounted pNat r
     let (attrs, r) ← pCounted (pPair pTy) r
     let (ips, r) ← pCounted pTy r
     let (ias, r) ← pCounted (pPair pExpr) r
     let (ms, r) ← pCounted (pPair pFunc) r
-    pure ({ base := base, mro := mro, attrs := attrs, init := { params := ips, assigns := ias }, methods := ms }, r)
+    pure ({ bases := bases, mro := mro, attrs := attrs, init := { params := ips, assigns := ias }, methods := ms }, r)
   | _ => none
 
 def pProg : Parser Prog
